@@ -62,7 +62,7 @@ type ItemSpec struct {
 	Code  string    `json:"code,omitempty"`
 	F     *Fields   `json:"fields,omitempty"`
 	Drift bool      `json:"fields_before_mutation_are_instead_set_AFTER_the_cell_was_made_and_without_Update,omitempty"` // the cell is made in the final state; afterwards the item changes to Pre and nobody asks the cell to update: it goes on showing the final text
-	Pre   *Fields   `json:"fields_before_mutation,omitempty"` // typed by-pointer items: created with these, mutated to F (then Update) before the judged render
+	Pre   *Fields   `json:"fields_before_mutation,omitempty"`                                                            // typed by-pointer items: created with these, mutated to F (then Update) before the judged render
 	Ptr   bool      `json:"ptr,omitempty"`
 	Inner *ItemSpec `json:"inner,omitempty"`
 }
@@ -266,6 +266,16 @@ func (s *ItemSpec) Make() Made {
 	case "cell":
 		in := s.Inner.Make()
 		m.Item = tabular.NewCell(in.Item)
+	case "fielder":
+		m.Item = FielderItem{string(s.Str)}
+	case "owneritem":
+		m.Item = OwnerItem{string(s.Str)}
+	case "cellish":
+		m.Item = CellishItem{string(s.Str)}
+	case "bothmarshal":
+		m.Item = BothMarshal{string(s.Str)}
+	case "textmarshal":
+		m.Item = TextOnlyMarshal{string(s.Str)}
 	case "twinnameNum":
 		m.Item = twinNameNum(s.Num)
 	case "twinnameStr":
@@ -376,7 +386,7 @@ func (s *ItemSpec) TextWith(f *Fields) string {
 		return s.Inner.Text()
 	case "cellptr":
 		return s.Inner.TextWith(f) // the cell pointed at follows its item (see Make)
-	case "anonG", "anonPS", "anonSE", "tplhtml", "tpljs", "tplurl", "tplattr", "jsonnumber", "lookS", "lookSB", "lookW", "lookH", "cellcycle1", "cellcycle2", "twinnameStr":
+	case "anonG", "anonPS", "anonSE", "tplhtml", "tpljs", "tplurl", "tplattr", "jsonnumber", "lookS", "lookSB", "lookW", "lookH", "cellcycle1", "cellcycle2", "twinnameStr", "fielder", "owneritem", "cellish", "bothmarshal", "textmarshal":
 		return string(s.Str) // promoted GoString / String (String before Error); named string types read as their value
 	case "aggslice", "aggstringer", "aggarrmap":
 		// by-value aggregates which reach mutable state through an interior reference
@@ -517,7 +527,7 @@ func (r *R) WrapText(s string) ItemSpec {
 		// other carriers whose documented text form is s: named string types of other packages (html/template's
 		// "trusted" strings, read as their value like any named string), a named string of this package, unnamed
 		// struct types with a promoted GoString or String
-		return ItemSpec{K: Pick(r, []string{"tplhtml", "tplhtml", "tpljs", "tplurl", "tplattr", "mystr", "anonG", "anonPS", "anonSE", "lookS", "lookSB", "lookW", "lookH", "twinnameStr", "twinnameStr"}), Str: Q(s)}
+		return ItemSpec{K: Pick(r, []string{"tplhtml", "tplhtml", "tpljs", "tplurl", "tplattr", "mystr", "anonG", "anonPS", "anonSE", "lookS", "lookSB", "lookW", "lookH", "twinnameStr", "twinnameStr", "fielder", "owneritem", "cellish", "bothmarshal", "textmarshal"}), Str: Q(s)}
 	default:
 		return StrItem(s)
 	}
@@ -563,7 +573,7 @@ func (r *R) AnyItem(fam Fam, maxAtoms, depth int) ItemSpec {
 	case 4:
 		return ItemSpec{K: "bool", Num: int64(r.Intn(2))}
 	case 5:
-		return ItemSpec{K: Pick(r, []string{"mystr", "bytes", "err", "fmtstr", "aggslice", "aggstringer", "aggarrmap", "anonG", "anonPS", "anonSE", "tplhtml", "tpljs", "tplurl", "tplattr", "tplhtml", "jsonnumber", "ifacestruct", "ifacearr", "lookS", "lookSB", "lookW", "lookH", "lookNone", "cellcycle1", "cellcycle2", "twinnameStr", "twinnameNum", "twinnameBool"}), Str: Q(r.Str(fam, maxAtoms)), Num: int64(r.Intn(3))}
+		return ItemSpec{K: Pick(r, []string{"mystr", "bytes", "err", "fmtstr", "aggslice", "aggstringer", "aggarrmap", "anonG", "anonPS", "anonSE", "tplhtml", "tpljs", "tplurl", "tplattr", "tplhtml", "jsonnumber", "ifacestruct", "ifacearr", "lookS", "lookSB", "lookW", "lookH", "lookNone", "cellcycle1", "cellcycle2", "twinnameStr", "twinnameNum", "twinnameBool", "fielder", "owneritem", "cellish", "bothmarshal", "textmarshal"}), Str: Q(r.Str(fam, maxAtoms)), Num: int64(r.Intn(3))}
 	case 6:
 		return ItemSpec{K: Pick(r, []string{"slice", "map", "struct", "structptr", "complex", "complex64", "fmtfloat"}), Str: Q(r.Str(FAscii, 2)), Num: int64(r.Intn(9)), Flt: 1.5}
 	case 7:
@@ -723,3 +733,61 @@ func twinNameBool(b bool) interface{} {
 	type Amount bool
 	return Amount(b)
 }
+
+// Items that ALSO satisfy interfaces which have nothing to do with being an item: interfaces the library declares
+// (Fielder and AnonFielder, which it has never consulted; PropertyOwner, PropertyCallback, ErrorSource and
+// ErrorReceiver, which are about tables), the method names of Cell and Row, and pairs of encoding interfaces that
+// disagree with each other.  An item is shown by its text form (or, in JSON, by what encoding/json makes of it)
+// whatever else its type can do.
+type FielderItem struct{ ID string }
+
+func (f FielderItem) Fields() []string {
+	return []string{"<wrong: field 1>", "<wrong: field 2>", "<wrong: field 3>"}
+}
+func (f FielderItem) AnonFields() []interface{} {
+	return []interface{}{1, "<wrong: anon field>", nil, 4.5}
+}
+func (f FielderItem) String() string { return f.ID }
+
+type OwnerItem struct{ ID string }
+
+func (o OwnerItem) SetProperty(k, v interface{}) error    { return nil }
+func (o OwnerItem) GetProperty(k interface{}) interface{} { return "<wrong: the item's own property>" }
+func (o OwnerItem) UpdateProperties(tabular.PropertyOwner) error {
+	return fmt.Errorf("<wrong: the item is not a callback>")
+}
+func (o OwnerItem) Errors() []error                               { return []error{fmt.Errorf("<wrong: the item's own errors>")} }
+func (o OwnerItem) AddError(error)                                {}
+func (o OwnerItem) AddErrorList([]error)                          {}
+func (o OwnerItem) RegisterPropertyCallback(...interface{}) error { return nil }
+func (o OwnerItem) GoString() string                              { return o.ID }
+
+type CellishItem struct{ ID string }
+
+func (c CellishItem) Item() interface{} { return "<wrong: Item()>" }
+func (c CellishItem) Lines() []string   { return []string{"<wrong", "Lines()>"} }
+func (c CellishItem) Update()           {}
+func (c CellishItem) Empty() bool       { return true }
+func (c CellishItem) Location() tabular.CellLocation {
+	return tabular.CellLocation{Row: 99, Column: 99}
+}
+func (c CellishItem) Cells() []tabular.Cell { return nil }
+func (c CellishItem) IsSeparator() bool     { return true }
+func (c CellishItem) NColumns() int         { return 7 }
+func (c CellishItem) Error() string         { return c.ID }
+
+// BothMarshal implements json.Marshaler and encoding.TextMarshaler, and the two disagree: encoding/json prefers
+// MarshalJSON (as for a non-nil *big.Int, which encodes as a number although its MarshalText gives digits in a string).
+type BothMarshal struct{ ID string }
+
+func (b BothMarshal) MarshalJSON() ([]byte, error) { return []byte(`{"from":"MarshalJSON"}`), nil }
+func (b BothMarshal) MarshalText() ([]byte, error) { return []byte("<wrong: MarshalText>"), nil }
+func (b BothMarshal) String() string               { return b.ID }
+
+// TextOnlyMarshal implements encoding.TextMarshaler only: encoding/json encodes it as that text, in a string.
+type TextOnlyMarshal struct{ ID string }
+
+func (b TextOnlyMarshal) MarshalText() ([]byte, error) {
+	return []byte("text form for encodings: " + b.ID), nil
+}
+func (b TextOnlyMarshal) String() string { return b.ID }
